@@ -266,6 +266,11 @@ class DocGen:
                 body = body[1:]
             if not body:
                 body = [self.w()]
+            if blank and rng.random() < 0.35:
+                # after the separating empty line the header is over: a first body line of the shape
+                # `word: text` is ordinary text
+                body = [self.w(1) + ": " + self.w(2)] + body
+                kinds = ["colon-first-line"] + kinds
             lines = hdr + ([""] if blank else []) + body
             kinds = ["meta" + ("+blank" if blank else "+direct")] + kinds
         else:
@@ -287,12 +292,49 @@ def render_doc(doc, indent):
     return "".join(f"{indent}!!{(' ' + l) if l else ''}\n" for l in doc["lines"])
 
 
+def render_decl(stmt, doc, indent, style):
+    """A declaration with its documentation in one of the four marker styles (default markers):
+    0 following `!!` lines, 1 preceding `!>` lines, 2 following block `!*` + ordinary comment lines
+    (closed by a blank line), 3 preceding block `!|` + ordinary comment lines."""
+    ls = doc["lines"]
+    sp = lambda l: (" " + l) if l else ""   # noqa: E731
+    if style == 0:
+        return f"{indent}{stmt}\n" + "".join(f"{indent}  !!{sp(l)}\n" for l in ls)
+    if style == 1:
+        return "".join(f"{indent}!>{sp(l)}\n" for l in ls) + f"{indent}{stmt}\n"
+    if style == 2:
+        return (f"{indent}{stmt}\n" + "".join(f"{indent}  !{'*' if i == 0 else ''}{sp(l)}\n" for i, l in enumerate(ls))
+                + "\n")
+    return "".join(f"{indent}!{'|' if i == 0 else ''}{sp(l)}\n" for i, l in enumerate(ls)) + f"{indent}{stmt}\n"
+
+
 def gen_doc_project(rng, knobs=None):
     """A small project whose entities (modules, variables, types, components, procedures,
-    arguments) carry generated documentation. Returns (files, expected) where expected maps
-    (obj, name, parent name) -> doc record."""
+    arguments, enumerators) carry generated documentation. One declaration may declare several
+    variables: they share its comment (each gets the metadata and every word). Declarations use the
+    four marker styles. Returns (files, expected) where expected maps (obj, name, parent name) ->
+    doc record (records of a shared comment carry `shared` = number of entities)."""
     g = DocGen(rng, knobs)
     files, expected = {}, {}
+
+    def names(base):
+        k = rng.choice([1, 1, 2, 2, 3])
+        return [base] if k == 1 else [f"{base}{'abc'[i]}" for i in range(k)]
+
+    def decl(src, typ, base, parent, indent, leaf=True, single=False):
+        ns = [base] if single else names(base)
+        d = g.doc(leaf=leaf)
+        d["shared"] = len(ns)
+        d["style"] = rng.randrange(4)
+        if d["style"] == 2 and d["kinds"] == ["oneline-colon"]:
+            # recorded finding: the blank line that closes a `!*` block adds an empty doc line, so the
+            # one-line special case of read_metadata does not protect the comment
+            d["region"] = "doc-oneline-colon-alt-block"
+        for n in ns:
+            expected[("variable", n, parent)] = d
+        src.append(render_decl(f"{typ} :: {', '.join(ns)}", d, indent, d["style"]))
+        return ns
+
     for fi in range(rng.choice([1, 1, 2])):
         mod = f"mod{fi}"
         src = []
@@ -300,42 +342,41 @@ def gen_doc_project(rng, knobs=None):
         expected[("module", mod, None)] = d
         src.append(f"module {mod}\n" + render_doc(d, "  ") + "  implicit none\n")
         for vi in range(rng.randint(0, 2)):
-            name = f"v{fi}x{vi}"
-            d = g.doc(leaf=True)
-            expected[("variable", name, mod)] = d
-            src.append(f"  {rng.choice(['integer', 'real', 'logical'])} :: {name}\n" + render_doc(d, "    "))
+            decl(src, rng.choice(["integer", "real", "logical"]), f"v{fi}x{vi}", mod, "  ")
+        if rng.random() < 0.25:
+            src.append("  enum, bind(c)\n")
+            decl(src, "enumerator", f"e{fi}n", "enum", "    ")
+            src.append("  end enum\n")
         for ti in range(rng.randint(0, 1)):
             tname = f"t{fi}x{ti}"
             d = g.doc()
             expected[("type", tname, mod)] = d
             src.append(f"  type :: {tname}\n" + render_doc(d, "    "))
             for ci in range(rng.randint(1, 2)):
-                cname = f"c{ci}"
-                d = g.doc(leaf=True)
-                expected[("variable", cname, tname)] = d
-                src.append(f"    integer :: {cname}\n" + render_doc(d, "      "))
+                decl(src, "integer", f"c{ci}", tname, "    ")
             src.append(f"  end type {tname}\n")
         src.append("contains\n")
         for pi in range(rng.randint(1, 2)):
             pname = f"p{fi}x{pi}"
             isfun = rng.random() < 0.4
-            args = [f"a{k}" for k in range(rng.randint(0, 2))]
+            nargs = rng.randint(0, 2)
             d = g.doc()
             expected[("proc", pname, mod)] = d
+            body = []
+            args = []
+            if nargs:
+                args = decl(body, "integer, intent(in)", "a0", pname, "    ")
+                if nargs == 2:
+                    args += decl(body, "real, intent(in)", "a1", pname, "    ")
             if isfun:
                 src.append(f"  function {pname}({', '.join(args)}) result(res)\n" + render_doc(d, "    "))
-            else:
-                src.append(f"  subroutine {pname}({', '.join(args)})\n" + render_doc(d, "    "))
-            for a in args:
-                d = g.doc(leaf=True)
-                expected[("variable", a, pname)] = d
-                src.append(f"    integer, intent(in) :: {a}\n" + render_doc(d, "      "))
-            if isfun:
-                d = g.doc(leaf=True)
-                expected[("variable", "res", pname)] = d
-                src.append("    integer :: res\n" + render_doc(d, "      ") + "    res = 0\n")
+                src += body
+                decl(src, "integer", "res", pname, "    ", single=True)
+                src.append("    res = 0\n")
                 src.append(f"  end function {pname}\n")
             else:
+                src.append(f"  subroutine {pname}({', '.join(args)})\n" + render_doc(d, "    "))
+                src += body
                 src.append(f"  end subroutine {pname}\n")
         src.append(f"end module {mod}\n")
         files[f"src/f{fi}.f90"] = "".join(src)
